@@ -30,6 +30,8 @@ func ValidityFragments() map[string]*Fragment {
 		{Name: "vl77", Leaves: []Leaf{{P: P("refs", "ll"), LLU: []uint64{77}}}},
 		{Name: "vmv", Leaves: []Leaf{leaf("v", "mand", K{"id", "m1"}, "v")}},
 		{Name: "vmm", Leaves: []Leaf{leaf("m", "mand", K{"id", "m1"}, "m")}},
+		// a relative leafref that climbs out of an entry of a two-key list (../../sys/hostname)
+		{Name: "vok", Leaves: []Leaf{leaf("r1", "ok2", K{"k1", "sys"}, K{"k2", "y"}, "href")}},
 	}
 	m := map[string]*Fragment{}
 	for _, f := range fs {
@@ -38,11 +40,12 @@ func ValidityFragments() map[string]*Fragment {
 	return m
 }
 
-var ValidityFragOrder = []string{"vh1", "vhU", "vhL", "vm9", "vm5", "vg", "vup", "vif", "vif2", "vd3", "vd4", "vl2", "vl3", "vl77", "vmv", "vmm"}
+var ValidityFragOrder = []string{"vh1", "vhU", "vhL", "vm9", "vm5", "vg", "vup", "vif", "vif2", "vd3", "vd4", "vl2", "vl3", "vl77", "vmv", "vmm", "vok"}
 
 func validityMulti() []Op {
 	return []Op{
 		{Intents: []IntentSpec{{Owner: "A", Prio: 10, Frag: "vmv"}, {Owner: "B", Prio: 20, Frag: "vmm"}}},
+		{Intents: []IntentSpec{{Owner: "A", Prio: 10, Frag: "vh1"}, {Owner: "B", Prio: 20, Frag: "vok"}}},
 		{Intents: []IntentSpec{{Owner: "A", Prio: 10, Frag: "vup"}, {Owner: "B", Prio: 20, Frag: "vif"}}},
 		{Intents: []IntentSpec{{Owner: "A", Prio: 10, Frag: "vg"}, {Owner: "C", Prio: 30, Frag: "vm5"}}},
 		{Intents: []IntentSpec{{Owner: "A", Prio: 10, Delete: true}, {Owner: "B", Prio: 20, Frag: "vh1"}}},
